@@ -75,13 +75,37 @@ def gen_input(kind, n, rng, period=None):
     raise ValueError(kind)
 
 # ------------------------------------------------------------------------------------------- plan -> options
+_PD_CACHE = {}
 def preset_dict_bytes(plan):
-    """Deterministic preset dictionary of the plan (raw encoders only)."""
-    if not plan.get("pdict"):
+    """Deterministic preset dictionary of the plan (raw encoders only): 'small' = 300 bytes, 'huge' = longer than the
+    encoder's whole window (so that only its tail may be used)."""
+    kind = plan.get("pdict", "no")
+    if kind in ("no", False, None) or plan["entry"] not in ("raw1", "raw2", "raw_buffer", "raw1_buffer"):
         return b""
-    r = random.Random(plan.get("pdseed", 7))
-    n = plan.get("pdlen", 300)
-    return gen_input("mixed", n, r)
+    if kind not in _PD_CACHE:
+        r = random.Random(7 if kind == "small" else 11)
+        if kind == "small" or kind is True:
+            _PD_CACHE[kind] = gen_input("mixed", 300, r)
+        else:
+            # position-stamped so that head and tail differ everywhere
+            parts = []
+            for i in range(720000 // 24):
+                parts.append(b"%07d:" % i + r.choice(WORDS)[:6].ljust(6, b".") + bytes([r.getrandbits(8) for _ in range(10)]))
+            _PD_CACHE[kind] = b"".join(parts)
+    return _PD_CACHE[kind]
+
+def splice_preset(data, pd, dict_size, rng):
+    """Make the input refer to the part of the preset dictionary a decoder will have (its last dict_size bytes)."""
+    if not pd or len(data) < 8:
+        return data
+    tail = pd[-min(len(pd), dict_size):]
+    b = bytearray(data)
+    for _ in range(1 + len(b) // 40):
+        ln = rng.randint(4, min(60, len(tail), len(b)))
+        so = rng.randint(0, len(tail) - ln)
+        do = rng.randint(0, len(b) - ln)
+        b[do:do + ln] = tail[so:so + ln]
+    return bytes(b)
 
 def resolve(plan):
     """-> dict(entry, preset32, check, opt (OptLzma or None), lc, lp, pb, dict_size, filters (list of (id, optstruct)),
@@ -108,8 +132,8 @@ def resolve(plan):
             o.depth = int(plan["depth"])
         if plan.get("dict", "dflt") != "dflt":
             o.dict_size = int(plan["dict"])
-        if e in ("raw1", "raw2", "raw_buffer", "raw1_buffer") and plan.get("pdict"):
-            pd = preset_dict_bytes(plan)
+        pd = preset_dict_bytes(plan)
+        if pd:
             buf = C.create_string_buffer(pd, len(pd))
             keep.append(buf)
             o.preset_dict = C.cast(buf, C.c_void_p).value
@@ -299,10 +323,10 @@ def encode(plan, data, bias=0, seed=1):
                 init_check(c.init("lzma_microlzma_encoder", C.byref(info["opt"])), "lzma_microlzma_encoder")
                 lim = plan.get("limit", "big")
                 if lim == "big":
-                    cap = out_bound(n) + 16
+                    cap = out_bound(n) + 16          # plenty of room: everything must be encoded
                 else:
                     cap = max(6, int(lim))
-                R.limit = cap
+                    R.limit = cap
                 grant = None
             ret, out, marks, ip = code_segments(c, data, segs, cap, grant, rng)
             R.total_in = c.strm.total_in; R.total_out = c.strm.total_out
